@@ -1,0 +1,811 @@
+//go:build verif
+
+package main
+
+// Verification hook (build tag verif, add-only): hostile JSON-RPC request bodies against the node's real RPC server
+// (rpc/rpcserver handler + every method registered by startRpc) for property C12 of the verification framework.
+//
+// The node (real LMDB store, a few mined blocks) runs in a CHILD process (this test binary re-executed with
+// -test.run=TestVerifRpcChild) behind the real net/http server started by startRpc; the parent test posts request
+// bodies over loopback HTTP and records (input class, outcome).  A handler panic is recovered by net/http (the
+// connection is dropped without a response: outcome "dropped"); anything that kills the process is seen by the parent
+// as a dead child (outcome "died") and the child is restarted.  The child also serves its runtime.MemStats.TotalAlloc
+// on a second port so that the allocation caused by one request can be bounded.
+// The JSON layer is encoding/json: the parent decodes every body with the same library into mirror structures whose
+// custom-typed fields (util.Hash, enc.Hex, address.Integrated) are kept as raw tokens; the Coq model (Model/Lines.v)
+// decides on those tokens and on the envelope.  Runs only when VERIF_OUT names an output directory.
+
+import (
+	"bufio"
+	"bytes"
+	"encoding/hex"
+	"encoding/json"
+	"fmt"
+	"io"
+	"net"
+	"net/http"
+	"os"
+	"os/exec"
+	"path/filepath"
+	"runtime"
+	"strconv"
+	"strings"
+	"testing"
+	"time"
+
+	"github.com/virel-project/virel-blockchain/v3/adb"
+	"github.com/virel-project/virel-blockchain/v3/adb/lmdb"
+	"github.com/virel-project/virel-blockchain/v3/address"
+	"github.com/virel-project/virel-blockchain/v3/bitcrypto"
+	"github.com/virel-project/virel-blockchain/v3/block"
+	"github.com/virel-project/virel-blockchain/v3/blockchain"
+	"github.com/virel-project/virel-blockchain/v3/config"
+	"github.com/virel-project/virel-blockchain/v3/logger"
+	"github.com/virel-project/virel-blockchain/v3/p2p"
+	"github.com/virel-project/virel-blockchain/v3/rpc"
+)
+
+const vrGuard = 120 * time.Second
+
+// ---------------------------------------------------------------- child: the node
+
+func vrMiner() address.Address { return address.FromPubKey(bitcrypto.Pubkey{7, 7, 7}) }
+
+func TestVerifRpcChild(t *testing.T) {
+	dir := os.Getenv("VERIF_RPC_CHILD")
+	if dir == "" {
+		t.Skip("not a child")
+	}
+	db, err := lmdb.New(dir+"/lmdb/", 0o700, logger.DiscardLog)
+	if err != nil {
+		t.Fatal(err)
+	}
+	blockchain.Log.SetLogLevel(0)
+	Log.SetLogLevel(0)
+	bc := blockchain.New(dir, db)
+	bc.P2P = &p2p.P2P{Connections: map[string]*p2p.Connection{}}
+	bc.Stratum = nil
+	// a few blocks paying the miner address (templates of the real node, proof of work of the unittest network)
+	for i := 0; i < 4; i++ {
+		var bl *block.Block
+		err = bc.DB.Update(func(txn adb.Txn) (err error) {
+			bl, _, err = bc.GetBlockTemplate(txn, vrMiner())
+			return err
+		})
+		if err != nil {
+			t.Fatal(err)
+		}
+		if err = bc.PrevalidateBlock(bl, nil); err != nil {
+			t.Fatal(err)
+		}
+		if err = bc.DB.Update(func(txn adb.Txn) error { return bc.AddBlock(txn, bl, bl.Hash()) }); err != nil {
+			t.Fatal(err)
+		}
+	}
+	var hashes []string
+	bc.DB.View(func(txn adb.Txn) error {
+		for h := uint64(0); h <= 4; h++ {
+			if bl, err := bc.GetBlockByHeight(txn, h); err == nil {
+				hashes = append(hashes, bl.Hash().String())
+			}
+		}
+		return nil
+	})
+	port := func() int {
+		ln, err := net.Listen("tcp", "127.0.0.1:0")
+		if err != nil {
+			t.Fatal(err)
+		}
+		defer ln.Close()
+		return ln.Addr().(*net.TCPAddr).Port
+	}
+	rpcPort := port()
+	startRpc(bc, "127.0.0.1", uint16(rpcPort), false)
+	mln, err := net.Listen("tcp", "127.0.0.1:0")
+	if err != nil {
+		t.Fatal(err)
+	}
+	go http.Serve(mln, http.HandlerFunc(func(w http.ResponseWriter, r *http.Request) {
+		var m runtime.MemStats
+		runtime.ReadMemStats(&m)
+		fmt.Fprintf(w, "%d", m.TotalAlloc)
+	}))
+	ctl := os.NewFile(3, "ctl")
+	fmt.Fprintf(ctl, "READY %d %d %s\n", rpcPort, mln.Addr().(*net.TCPAddr).Port, strings.Join(hashes, ","))
+	// live until the parent closes our stdin
+	io.Copy(io.Discard, os.Stdin)
+}
+
+// ---------------------------------------------------------------- parent: the client
+
+type vrChild struct {
+	cmd      *exec.Cmd
+	stdin    io.WriteCloser
+	rpcURL   string
+	memURL   string
+	hashes   []string
+	stderr   *vrTail
+	exited   chan struct{}
+	starts   int
+	cli      *http.Client
+	basedir  string
+	startErr error
+}
+
+type vrTail struct{ b []byte }
+
+func (t *vrTail) Write(p []byte) (int, error) {
+	if len(t.b) < 1<<16 {
+		t.b = append(t.b, p...)
+	}
+	return len(p), nil
+}
+
+// start brings a node up and makes sure it is the one that answers on the RPC port (the port is chosen by binding
+// and releasing it, as startRpc takes a number: if anything else grabbed it meanwhile, try again).
+func (c *vrChild) start(t *testing.T) {
+	for try := 0; ; try++ {
+		c.startOnce(t)
+		body := []byte(`{"jsonrpc":"2.0","id":1,"method":"get_info","params":{}}`)
+		resp, err := c.cli.Post(c.rpcURL, "application/json", bytes.NewReader(body))
+		if err == nil {
+			raw, _ := io.ReadAll(resp.Body)
+			resp.Body.Close()
+			if bytes.Contains(raw, []byte(`"top_hash":"`+c.hashes[len(c.hashes)-1]+`"`)) {
+				return
+			}
+		}
+		c.stop()
+		if try == 4 {
+			t.Fatalf("the node's RPC server does not answer on its port: %v", err)
+		}
+	}
+}
+
+func (c *vrChild) startOnce(t *testing.T) {
+	c.starts++
+	dir := filepath.Join(c.basedir, fmt.Sprintf("node%d", c.starts))
+	os.MkdirAll(dir, 0o700)
+	c.cmd = exec.Command(os.Args[0], "-test.run=^TestVerifRpcChild$", "-test.count=1", "-test.timeout=0")
+	c.cmd.Env = append(os.Environ(), "VERIF_RPC_CHILD="+dir)
+	pr, pw, err := os.Pipe()
+	if err != nil {
+		t.Fatal(err)
+	}
+	c.cmd.ExtraFiles = []*os.File{pw}
+	c.stderr = &vrTail{}
+	c.cmd.Stderr = c.stderr
+	c.cmd.Stdout = c.stderr
+	c.stdin, _ = c.cmd.StdinPipe()
+	if err := c.cmd.Start(); err != nil {
+		t.Fatal(err)
+	}
+	pw.Close()
+	c.exited = make(chan struct{})
+	go func(cmd *exec.Cmd, ch chan struct{}) { cmd.Wait(); close(ch) }(c.cmd, c.exited)
+	line, err := bufio.NewReader(pr).ReadString('\n')
+	pr.Close()
+	f := strings.Fields(line)
+	if err != nil || len(f) != 4 || f[0] != "READY" {
+		t.Fatalf("child did not come up: %v %q\n%s", err, line, c.stderr.b)
+	}
+	c.rpcURL = "http://127.0.0.1:" + f[1] + "/"
+	c.memURL = "http://127.0.0.1:" + f[2] + "/"
+	c.hashes = strings.Split(f[3], ",")
+	// the RPC server listens in a goroutine of its own: wait until it accepts (condition wait, bounded)
+	deadline := time.Now().Add(vrGuard)
+	for {
+		conn, err := net.Dial("tcp", "127.0.0.1:"+f[1])
+		if err == nil {
+			conn.Close()
+			break
+		}
+		if time.Now().After(deadline) {
+			t.Fatal("rpc port never accepted")
+		}
+		time.Sleep(2 * time.Millisecond)
+	}
+}
+
+func (c *vrChild) stop() {
+	c.stdin.Close()
+	select {
+	case <-c.exited:
+	case <-time.After(10 * time.Second):
+		c.cmd.Process.Kill()
+		<-c.exited
+	}
+}
+
+func (c *vrChild) totalAlloc() (uint64, bool) {
+	resp, err := c.cli.Get(c.memURL)
+	if err != nil {
+		return 0, false
+	}
+	defer resp.Body.Close()
+	b, _ := io.ReadAll(resp.Body)
+	v, err := strconv.ParseUint(string(b), 10, 64)
+	return v, err == nil
+}
+
+type vrObs struct {
+	kind   int // 0 result, 1 error object, 2 other body (not a JSON-RPC response), 3 dropped (no HTTP response), 4 process died
+	status int
+	code   int64
+	rlen   int
+	alloc  uint64
+	msg    string
+}
+
+func (c *vrChild) post(t *testing.T, httpMethod string, body []byte) (o vrObs) {
+	a0, _ := c.totalAlloc()
+	req, _ := http.NewRequest(httpMethod, c.rpcURL, bytes.NewReader(body))
+	req.Header.Set("Content-Type", "application/json")
+	resp, err := c.cli.Do(req)
+	if err != nil {
+		// no HTTP response: either net/http recovered a handler panic and dropped the connection, or the process is gone
+		select {
+		case <-c.exited:
+			o.kind, o.msg = 4, "process died: "+vrFatal(c.stderr.b)
+			c.start(t)
+			return
+		default:
+		}
+		if _, ok := c.totalAlloc(); !ok {
+			select {
+			case <-c.exited:
+			case <-time.After(10 * time.Second):
+			}
+			o.kind, o.msg = 4, "process died: "+vrFatal(c.stderr.b)
+			c.cmd.Process.Kill()
+			<-c.exited
+			c.start(t)
+			return
+		}
+		o.kind, o.msg = 3, err.Error()+" | "+vrFatal(c.stderr.b)
+		c.stderr.b = nil
+		return
+	}
+	raw, _ := io.ReadAll(resp.Body)
+	resp.Body.Close()
+	a1, _ := c.totalAlloc()
+	o.status, o.rlen, o.alloc = resp.StatusCode, len(raw), a1-a0
+	var r struct {
+		Result json.RawMessage `json:"result"`
+		Error  *struct {
+			Code int64 `json:"code"`
+		} `json:"error"`
+	}
+	if json.Unmarshal(raw, &r) != nil || (r.Error == nil && r.Result == nil) {
+		o.kind = 2
+	} else if r.Error != nil {
+		o.kind, o.code = 1, r.Error.Code
+	}
+	return
+}
+
+func vrFatal(stderr []byte) string {
+	for _, l := range strings.Split(string(stderr), "\n") {
+		if strings.Contains(l, "panic") || strings.HasPrefix(l, "fatal error:") || strings.HasPrefix(l, "runtime:") {
+			return strings.TrimSpace(l)
+		}
+	}
+	return ""
+}
+
+// ---------------------------------------------------------------- grammar
+
+type vrTok struct{ s, shape string }
+
+type vrRng struct{ s uint64 }
+
+func (r *vrRng) u64() uint64 {
+	r.s += 0x9E3779B97F4A7C15
+	z := r.s
+	z = (z ^ (z >> 30)) * 0xBF58476D1CE4E5B9
+	z = (z ^ (z >> 27)) * 0x94D049BB133111EB
+	return z ^ (z >> 31)
+}
+func (r *vrRng) intn(n int) int { return int(r.u64() % uint64(n)) }
+func (r *vrRng) bytes(n int) []byte {
+	b := make([]byte, n)
+	for i := range b {
+		b[i] = byte(r.u64())
+	}
+	return b
+}
+
+func vrWrong() []vrTok {
+	return []vrTok{{"null", "null"}, {"true", "bool"}, {"0", "num0"}, {"12", "num"}, {"-1", "neg"}, {"1.5", "frac"}, {"1e400", "exp-huge"},
+		{"18446744073709551616", "2^64"}, {"{}", "obj"}, {"[]", "arr"}, {`["00"]`, "arr-str"}, {`{"a":"00"}`, "obj-str"}}
+}
+
+func vrHex(r *vrRng, lens ...int) []vrTok {
+	var out []vrTok
+	for n := 0; n <= 40; n++ {
+		out = append(out, vrTok{`"` + hex.EncodeToString(r.bytes(n)) + `"`, fmt.Sprintf("hexlen=%d", n)})
+	}
+	for _, n := range lens {
+		out = append(out, vrTok{`"` + hex.EncodeToString(r.bytes(n)) + `"`, fmt.Sprintf("hexlen=%d", n)})
+	}
+	for _, n := range []int{1, 3, 31, 33, 63, 65, 127, 129} {
+		out = append(out, vrTok{`"` + hex.EncodeToString(r.bytes(n/2 + 1))[:n] + `"`, fmt.Sprintf("hexodd=%d", n)})
+	}
+	for _, n := range []int{2, 16, 32, 64} {
+		h := []byte(hex.EncodeToString(r.bytes(n)))
+		h[r.intn(len(h))] = "gzGZ xX-+_/:@`"[r.intn(14)]
+		out = append(out, vrTok{`"` + string(h) + `"`, fmt.Sprintf("nonhex=%d", n)})
+	}
+	out = append(out,
+		vrTok{`"` + strings.ToUpper(hex.EncodeToString(r.bytes(32))) + `"`, "hexupper=32"},
+		vrTok{`"0x` + hex.EncodeToString(r.bytes(31)) + `"`, "0x-prefix"},
+		vrTok{`"\u0030\u0030` + hex.EncodeToString(r.bytes(31)) + `"`, "escaped-digits"},
+		vrTok{`"` + "\xff\xfe" + `"`, "invalid-utf8"},
+		vrTok{`""`, "empty"},
+		vrTok{`"` + hex.EncodeToString(r.bytes(5000)) + `"`, "hexlen=5000"},
+	)
+	return append(out, vrWrong()...)
+}
+
+func vrUint() []vrTok {
+	return []vrTok{{"0", "0"}, {"1", "1"}, {"3", "3"}, {"5", "5"}, {"2147483647", "2^31-1"}, {"2147483648", "2^31"}, {"4294967296", "2^32"}, {"9007199254740993", "2^53+1"},
+		{"9223372036854775807", "2^63-1"}, {"9223372036854775808", "2^63"}, {"18446744073709551615", "2^64-1"}, {"18446744073709551616", "2^64"},
+		{"737869762948382064", "2^64/25"}, {"737869762948382065", "2^64/25+1"}, {"1e30", "1e30"}, {"1e3", "1e3"}, {"-1", "-1"}, {"-0", "-0"}, {"1.5", "1.5"}, {"1.0", "1.0"},
+		{`"12"`, "str-num"}, {`""`, "str-empty"}, {"null", "null"}, {"true", "bool"}, {"{}", "obj"}, {"[]", "arr"}, {"[1]", "arr1"},
+		{strings.Repeat("9", 400), "digits=400"}}
+}
+
+func vrStr(valid string) []vrTok {
+	q := func(s string) string { b, _ := json.Marshal(s); return string(b) }
+	return append([]vrTok{{q(valid), "valid"}, {`""`, "empty"}, {q(" "), "space"}, {q(valid + " "), "valid+space"}, {q(strings.ToUpper(valid)), "upper"},
+		{`"\u0000"`, "nul"}, {`"` + "\xff\xfe\xfd" + `"`, "invalid-utf8"}, {`"` + strings.Repeat("a", 300) + `"`, "long=300"},
+		{`"` + strings.Repeat("z", 5000) + `"`, "long=5000"}, {`"` + strings.Repeat("\\u00e9", 50) + `"`, "escapes"}}, vrWrong()...)
+}
+
+func vrAddrTexts(r *vrRng) []vrTok {
+	w := vrMiner().Integrated().String()
+	sub := address.Integrated{Addr: vrMiner(), PaymentId: 77}.String()
+	unk := address.FromPubKey(bitcrypto.Pubkey{8, 8}).Integrated().String()
+	mut := []byte(w)
+	mut[len(mut)/2] ^= 1
+	q := func(s string) string { b, _ := json.Marshal(s); return string(b) }
+	out := []vrTok{{q(w), "account"}, {q(sub), "account+payment-id"}, {q(unk), "unknown-account"}, {q("burnaddress"), "burn"},
+		{q(config.DELEGATE_ADDRESS_PREFIX + "1"), "delegate=1"}, {q(config.DELEGATE_ADDRESS_PREFIX + "0"), "delegate=0"}, {q(config.DELEGATE_ADDRESS_PREFIX), "delegate-prefix-only"},
+		{q(config.DELEGATE_ADDRESS_PREFIX + "18446744073709551615"), "delegate=max"}, {q(config.DELEGATE_ADDRESS_PREFIX + "18446744073709551616"), "delegate=2^64"},
+		{q(config.DELEGATE_ADDRESS_PREFIX + "-1"), "delegate=-1"}, {q(string(mut)), "bad-checksum"}, {q(strings.ToUpper(w)), "upper"}, {q(w + "0"), "one-more-digit"},
+		{q(" " + w), "leading-space"}, {q(w[:1]), "prefix-only"}, {q(w[:1] + "-" + w[2:]), "minus"}, {q(w[:1] + strings.Repeat("0", 40)), "zeros"},
+		{q(w[:1] + strings.Repeat("z", 200)), "z200"}, {q(w[:1] + strings.Repeat("z", 5000)), "z5000"}, {q("x" + w[1:]), "other-prefix"},
+		{`"\u0076` + w[1:] + `"`, "escaped-prefix"}}
+	for k := 0; k < len(w); k += 4 {
+		out = append(out, vrTok{q(w[:k]), fmt.Sprintf("trunc=%d", k)})
+	}
+	return out
+}
+
+type vrField struct {
+	name string
+	v    *vrTok
+}
+
+func vrObj(fields []vrField) string {
+	var sb strings.Builder
+	sb.WriteByte('{')
+	first := true
+	for _, f := range fields {
+		if f.v == nil {
+			continue
+		}
+		if !first {
+			sb.WriteByte(',')
+		}
+		first = false
+		fmt.Fprintf(&sb, "%q:%s", f.name, f.v.s)
+	}
+	sb.WriteByte('}')
+	return sb.String()
+}
+
+func vrReplace(fields []vrField, name string, v *vrTok) []vrField {
+	out := make([]vrField, 0, len(fields))
+	for _, f := range fields {
+		if f.name == name {
+			out = append(out, vrField{name, v})
+		} else {
+			out = append(out, f)
+		}
+	}
+	return out
+}
+
+func vrEnv(method string, params *vrTok) []vrField {
+	q, _ := json.Marshal(method)
+	return []vrField{{"jsonrpc", &vrTok{`"2.0"`, ""}}, {"id", &vrTok{"1", ""}}, {"method", &vrTok{string(q), ""}}, {"params", params}}
+}
+
+func vrBodyMalformations(r *vrRng, valid string) []vrTok {
+	var out []vrTok
+	n := len(valid)
+	cuts := map[int]bool{0: true, 1: true, 2: true, 3: true, n - 1: true, n - 2: true, n / 2: true}
+	for len(cuts) < 12 && len(cuts) < n {
+		cuts[r.intn(n)] = true
+	}
+	for k := 0; k < n; k++ {
+		if cuts[k] {
+			out = append(out, vrTok{valid[:k], fmt.Sprintf("trunc=%d", min(k, 3))})
+		}
+	}
+	out = append(out,
+		vrTok{" ", "space"}, vrTok{"  ", "two-spaces"}, vrTok{"\n\n", "newlines"}, vrTok{"null", "json-null"}, vrTok{"true", "json-true"}, vrTok{"0", "json-num"}, vrTok{"12", "json-num2"},
+		vrTok{`"x"`, "json-str"}, vrTok{"[]", "json-arr"}, vrTok{"{}", "json-empty-obj"}, vrTok{"[" + valid + "]", "batch1"}, vrTok{"[" + valid + "," + valid + "]", "batch2"},
+		vrTok{valid + valid, "two-objects"}, vrTok{valid + " x", "trailing-garbage"}, vrTok{"  " + valid + "\n", "padded"}, vrTok{"\xef\xbb\xbf" + valid, "bom"},
+		vrTok{"\x00" + valid, "nul-prefix"},
+		vrTok{strings.Repeat("[", 200) + strings.Repeat("]", 200), "nest=200"},
+		vrTok{strings.Repeat("[", 10001) + strings.Repeat("]", 10001), "nest=10001"},
+		vrTok{strings.Repeat(`{"a":`, 12000) + "1" + strings.Repeat("}", 12000), "nest-obj=12000"},
+		vrTok{strings.Repeat("[", 100000), "open-brackets=100000"},
+		vrTok{`{"jsonrpc":"2.0","id":1,"method":"get_info","params":` + strings.Repeat("[", 9000) + strings.Repeat("]", 9000) + "}", "params-nest=9000"},
+		vrTok{string(r.bytes(40)), "noise"}, vrTok{string(r.bytes(4000)), "noise4000"},
+		vrTok{"{" + strings.Repeat(`"k":1,`, 3000) + `"k":1}`, "many-keys"},
+	)
+	for _, total := range []int{65536, 1 << 20, 4 << 20} {
+		out = append(out, vrTok{valid[:n-1] + strings.Repeat(" ", total-n) + "}", fmt.Sprintf("padded-to=%d", total)})
+	}
+	return out
+}
+
+// one request of the grammar
+type vrReq struct {
+	gen, shape string
+	httpMethod string
+	body       string
+}
+
+// methods, their parameter fields and the type of each (h = util.Hash, x = enc.Hex, a = address.Integrated,
+// u = uint64, s = string)
+type vrParam struct{ name, typ string }
+
+var vrMethods = []struct {
+	name   string
+	params []vrParam
+}{
+	{"get_block_by_hash", []vrParam{{"hash", "h"}}},
+	{"get_block_by_height", []vrParam{{"height", "u"}}},
+	{"get_transaction", []vrParam{{"txid", "h"}}},
+	{"get_info", nil},
+	{"submit_transaction", []vrParam{{"hex", "x"}}},
+	{"get_address", []vrParam{{"address", "s"}}},
+	{"get_tx_list", []vrParam{{"address", "a"}, {"transfer_type", "s"}, {"page", "u"}}},
+	{"validate_address", []vrParam{{"address", "s"}}},
+	{"submit_stake_signature", []vrParam{{"delegate_id", "u"}, {"hash", "x"}, {"signature", "x"}}},
+	{"get_delegate", []vrParam{{"delegate_id", "u"}, {"delegate_address", "s"}}},
+	{"get_rich_list", nil},
+	{"calc_pow", []vrParam{{"blob", "x"}, {"seed_hash", "h"}}},
+}
+
+func vrRequests(hashes []string) []vrReq {
+	r := &vrRng{s: 12300}
+	if v, err := strconv.ParseUint(os.Getenv("VERIF_SEED"), 10, 64); err == nil {
+		r.s += v * 0x9E3779B97F4A7C15
+	}
+	var out []vrReq
+	add := func(gen, shape, body string) { out = append(out, vrReq{gen, shape, "POST", body}) }
+	w := vrMiner().Integrated().String()
+	q := func(s string) *vrTok { b, _ := json.Marshal(s); return &vrTok{string(b), ""} }
+	seed := hex.EncodeToString(bytes.Repeat([]byte{0x11}, 32))
+	valid := func(m string) []vrField {
+		switch m {
+		case "get_block_by_hash":
+			return []vrField{{"hash", q(hashes[len(hashes)-1])}}
+		case "get_block_by_height":
+			return []vrField{{"height", &vrTok{"2", ""}}}
+		case "get_transaction":
+			return []vrField{{"txid", q(hashes[1])}}
+		case "submit_transaction":
+			return []vrField{{"hex", q(hex.EncodeToString(r.bytes(150)))}}
+		case "get_address", "validate_address":
+			return []vrField{{"address", q(w)}}
+		case "get_tx_list":
+			return []vrField{{"address", q(w)}, {"transfer_type", q("incoming")}, {"page", &vrTok{"0", ""}}}
+		case "submit_stake_signature":
+			return []vrField{{"delegate_id", &vrTok{"1", ""}}, {"hash", q(hashes[len(hashes)-1])}, {"signature", q(hex.EncodeToString(r.bytes(64)))}}
+		case "get_delegate":
+			return []vrField{{"delegate_id", &vrTok{"1", ""}}, {"delegate_address", q("")}}
+		case "calc_pow":
+			return []vrField{{"blob", q(hex.EncodeToString(r.bytes(83)))}, {"seed_hash", q(seed)}}
+		}
+		return nil
+	}
+	body := func(m string, params []vrField) string { return vrObj(vrEnv(m, &vrTok{vrObj(params), ""})) }
+
+	for _, m := range vrMethods {
+		add("valid/"+m.name, "valid", body(m.name, valid(m.name)))
+		add("valid/"+m.name, "upper-case-method", body(strings.ToUpper(m.name), valid(m.name)))
+		// params as a whole
+		for _, t := range append(vrWrong(), vrTok{`"abc"`, "str"}, vrTok{`[` + vrObj(valid(m.name)) + `]`, "obj-in-array"}) {
+			t := t
+			add("params/"+m.name, t.shape, vrObj(vrEnv(m.name, &t)))
+		}
+		add("params/"+m.name, "missing", vrObj(vrEnv(m.name, nil)))
+		add("params/"+m.name, "extra-field", body(m.name, append(valid(m.name), vrField{"zzz", &vrTok{`{"a":[1,2,{"b":null}]}`, ""}})))
+		// one field at a time
+		for _, p := range m.params {
+			var toks []vrTok
+			switch p.typ {
+			case "h":
+				toks = vrHex(r, 64)
+				for _, h := range hashes {
+					toks = append(toks, vrTok{`"` + h + `"`, "stored-block-hash"})
+				}
+				toks = append(toks, vrTok{`"` + strings.ToUpper(hashes[0]) + `"`, "stored-hash-upper"}, vrTok{`"` + hashes[0][:63] + `"`, "hash-63"},
+					vrTok{`"` + hashes[0] + `0"`, "hash-65"}, vrTok{`"` + hashes[0][:62] + `zz"`, "hash-nonhex-tail"}, vrTok{`" ` + hashes[0][:63] + `"`, "hash-space"},
+					vrTok{`"` + hex.EncodeToString(r.bytes(32)) + `"`, "unknown-hash"})
+			case "x":
+				lens := []int{63, 64, 65, 83, 150, 300}
+				toks = vrHex(r, lens...)
+				if m.name == "submit_stake_signature" && p.name == "hash" {
+					toks = append(toks, vrTok{`"` + hashes[len(hashes)-1] + `"`, "stored-block-hash"})
+				}
+			case "u":
+				toks = vrUint()
+			case "a":
+				toks = append(vrAddrTexts(r), vrWrong()...)
+			case "s":
+				switch p.name {
+				case "address":
+					toks = append(vrAddrTexts(r), vrWrong()...)
+				case "transfer_type":
+					toks = append(vrStr("incoming"), vrTok{`"outgoing"`, "outgoing"}, vrTok{`"Incoming"`, "case"})
+				default:
+					toks = append(vrStr(config.DELEGATE_ADDRESS_PREFIX+"1"), vrTok{`"` + config.DELEGATE_ADDRESS_PREFIX + `0"`, "delegate=0"},
+						vrTok{`"` + config.DELEGATE_ADDRESS_PREFIX + `18446744073709551616"`, "delegate=2^64"}, vrTok{`"` + config.DELEGATE_ADDRESS_PREFIX + `"`, "prefix-only"})
+				}
+			}
+			for _, t := range toks {
+				t := t
+				f := vrReplace(valid(m.name), p.name, &t)
+				if m.name == "get_delegate" && p.name == "delegate_address" {
+					f = vrReplace(f, "delegate_id", &vrTok{"0", ""})
+				}
+				add("field/"+m.name+"/"+p.name, t.shape, body(m.name, f))
+			}
+			add("field/"+m.name+"/"+p.name, "missing", body(m.name, vrReplace(valid(m.name), p.name, nil)))
+		}
+	}
+	// get_tx_list: every page around the end of a history, both directions
+	for _, typ := range []string{"incoming", "outgoing"} {
+		for _, pg := range []string{"0", "1", "2", "1000000", "18446744073709551615"} {
+			add("pages/get_tx_list", typ+"/page="+pg, body("get_tx_list", []vrField{{"address", q(w)}, {"transfer_type", q(typ)}, {"page", &vrTok{pg, ""}}}))
+		}
+	}
+	// envelope
+	gi := func() []vrField { return vrEnv("get_info", &vrTok{"{}", ""}) }
+	for _, t := range vrStr("2.0") {
+		t := t
+		add("env/jsonrpc", t.shape, vrObj(vrReplace(gi(), "jsonrpc", &t)))
+	}
+	add("env/jsonrpc", "missing", vrObj(vrReplace(gi(), "jsonrpc", nil)))
+	for _, t := range append(vrStr("get_info"), vrTok{`"Get_Info"`, "mixed-case"}, vrTok{`"get_info "`, "trailing-space"}, vrTok{`"getinfo"`, "unknown"}, vrTok{`"login"`, "stratum-method"},
+		vrTok{`"` + strings.Repeat("get_info", 1000) + `"`, "long"}) {
+		t := t
+		add("env/method", t.shape, vrObj(vrReplace(gi(), "method", &t)))
+	}
+	add("env/method", "missing", vrObj(vrReplace(gi(), "method", nil)))
+	for _, t := range append(vrUint(), vrTok{`"abc"`, "str"}, vrTok{`{"a":{"b":[1,2,3]}}`, "nested-obj"}) {
+		t := t
+		add("env/id", t.shape, vrObj(vrReplace(gi(), "id", &t)))
+	}
+	add("env/id", "missing", vrObj(vrReplace(gi(), "id", nil)))
+	for _, t := range vrBodyMalformations(r, body("get_block_by_height", valid("get_block_by_height"))) {
+		add("body", t.shape, t.s)
+	}
+	add("body", "empty", "")
+	add("body", "one-byte", "{")
+	add("body", "two-bytes", "{}")
+	for _, hm := range []string{"GET", "PUT", "DELETE", "OPTIONS", "HEAD", "PATCH"} {
+		out = append(out, vrReq{"http-method", hm, hm, body("get_info", nil)})
+	}
+	// submit_transaction: byte strings of transaction-like shapes (kind bytes, counts near the limits)
+	for k := 0; k < 60; k++ {
+		b := r.bytes(1 + r.intn(200))
+		b[0] = byte(k % 8)
+		if k%3 == 0 && len(b) > 12 {
+			copy(b[r.intn(len(b)-10):], []byte{0xff, 0xff, 0xff, 0xff, 0xff, 0xff, 0xff, 0xff, 0xff, 0x01})
+		}
+		add("tx-bytes/submit_transaction", fmt.Sprintf("kind=%d", k%8), body("submit_transaction", []vrField{{"hex", q(hex.EncodeToString(b))}}))
+	}
+	return out
+}
+
+// ---------------------------------------------------------------- oracle: what encoding/json makes of the body
+
+// per method: a mirror of the request type of rpc/daemonrpc
+func vrDecodeParams(method string, params json.RawMessage) (stdOk bool, custom []string, strs map[string]string, nums map[string]uint64) {
+	strs, nums = map[string]string{}, map[string]uint64{}
+	tokOf := func(kind int, raw json.RawMessage) string {
+		if raw == nil {
+			return fmt.Sprintf("RFp %d None", kind)
+		}
+		return fmt.Sprintf("RFp %d (Some %s)", kind, vrPack(raw))
+	}
+	var err error
+	switch method {
+	case "get_block_by_hash":
+		var m struct {
+			Hash json.RawMessage `json:"hash"`
+		}
+		err = json.Unmarshal(params, &m)
+		custom = []string{tokOf(1, m.Hash)}
+	case "get_block_by_height":
+		var m struct {
+			Height uint64 `json:"height"`
+		}
+		err = json.Unmarshal(params, &m)
+	case "get_transaction":
+		var m struct {
+			Txid json.RawMessage `json:"txid"`
+		}
+		err = json.Unmarshal(params, &m)
+		custom = []string{tokOf(1, m.Txid)}
+	case "submit_transaction":
+		var m struct {
+			Hex json.RawMessage `json:"hex"`
+		}
+		err = json.Unmarshal(params, &m)
+		custom = []string{tokOf(2, m.Hex)}
+	case "get_address", "validate_address":
+		var m struct {
+			Address string `json:"address"`
+		}
+		err = json.Unmarshal(params, &m)
+		strs["address"] = m.Address
+	case "get_tx_list":
+		var m struct {
+			Address      json.RawMessage `json:"address"`
+			TransferType string          `json:"transfer_type"`
+			Page         uint64          `json:"page"`
+		}
+		err = json.Unmarshal(params, &m)
+		custom = []string{tokOf(3, m.Address)}
+		strs["transfer_type"] = m.TransferType
+	case "submit_stake_signature":
+		var m struct {
+			DelegateId uint64          `json:"delegate_id"`
+			Hash       json.RawMessage `json:"hash"`
+			Signature  json.RawMessage `json:"signature"`
+		}
+		err = json.Unmarshal(params, &m)
+		custom = []string{tokOf(2, m.Hash), tokOf(2, m.Signature)}
+	case "get_delegate":
+		var m struct {
+			DelegateId      uint64 `json:"delegate_id"`
+			DelegateAddress string `json:"delegate_address"`
+		}
+		err = json.Unmarshal(params, &m)
+	case "calc_pow":
+		var m struct {
+			Blob     json.RawMessage `json:"blob"`
+			SeedHash json.RawMessage `json:"seed_hash"`
+		}
+		err = json.Unmarshal(params, &m)
+		custom = []string{tokOf(2, m.Blob), tokOf(1, m.SeedHash)}
+	default: // get_info, get_rich_list and unknown methods read no parameters
+		return true, nil, strs, nums
+	}
+	return err == nil, custom, strs, nums
+}
+
+func vrPack(b []byte) string {
+	var sb strings.Builder
+	fmt.Fprintf(&sb, "(mkpacked %d [", len(b))
+	for i := 0; i < len(b); i += 7 {
+		var w uint64
+		for j := 0; j < 7 && i+j < len(b); j++ {
+			w |= uint64(b[i+j]) << (8 * uint(j))
+		}
+		if i > 0 {
+			sb.WriteString("; ")
+		}
+		fmt.Fprintf(&sb, "%d%%uint63", w)
+	}
+	sb.WriteString("])")
+	return sb.String()
+}
+
+func vrBool(b bool) string {
+	if b {
+		return "true"
+	}
+	return "false"
+}
+
+func vrClip(s string) string {
+	if len(s) > 700 {
+		return fmt.Sprintf("%s...(%d bytes)...%s", s[:400], len(s), s[len(s)-100:])
+	}
+	return s
+}
+
+var vrKinds = []string{"result", "error", "other-body", "dropped", "died"}
+
+func TestVerifRpcBodies(t *testing.T) {
+	out := os.Getenv("VERIF_OUT")
+	if out == "" {
+		t.Skip("VERIF_OUT not set")
+	}
+	c := &vrChild{basedir: t.TempDir(), cli: &http.Client{Timeout: vrGuard, Transport: &http.Transport{DisableKeepAlives: true}}}
+	c.start(t)
+	defer c.stop()
+	reqs := vrRequests(c.hashes)
+	starts := c.starts
+	var cases, records []string
+	classes := map[string]int{}
+	var samples []any
+	for i := 0; i < len(reqs); i++ {
+		if c.starts != starts {
+			// a restarted node has other block hashes (templates carry the clock): same grammar, same random
+			// choices, the new node's hashes where a request quotes one
+			reqs, starts = vrRequests(c.hashes), c.starts
+		}
+		rq := reqs[i]
+		o := c.post(t, rq.httpMethod, []byte(rq.body))
+		// oracle (same library as the handler): envelope, then the parameters of the method
+		var env rpc.RequestIn
+		jsonOk := json.Unmarshal([]byte(rq.body), &env) == nil
+		method := strings.ToLower(env.Method)
+		params := env.Params
+		hasParams := params != nil
+		stdOk, custom, strs := true, []string(nil), map[string]string{}
+		if jsonOk && hasParams {
+			stdOk, custom, strs, _ = vrDecodeParams(method, params)
+		}
+		code := o.code
+		neg := code < 0
+		if neg {
+			code = -code
+		}
+		httpKind := map[string]int{"POST": 0, "OPTIONS": 1, "HEAD": 2}[rq.httpMethod]
+		if httpKind == 0 && rq.httpMethod != "POST" {
+			httpKind = 3
+		}
+		term := fmt.Sprintf("C12Rg %d %d %s %s %s %s %s [%s] %s %s %d %d %s %d %d %d", httpKind, len(rq.body), vrBool(jsonOk), vrPack([]byte(env.JsonRpc)),
+			vrPack([]byte(method)), vrBool(hasParams), vrBool(stdOk), strings.Join(custom, "; "), vrPack([]byte(strs["address"])), vrPack([]byte(strs["transfer_type"])),
+			o.status, o.kind, vrBool(neg), code, o.rlen, o.alloc)
+		cases = append(cases, term)
+		cl := fmt.Sprintf("rpc/%s/%s/%s/%d", rq.gen, rq.shape, vrKinds[o.kind], o.code)
+		classes[cl]++
+		data := map[string]any{"handler": "rpc/rpcserver + cmd/virel-node/noderpc.go", "gen": rq.gen, "shape": rq.shape, "http_method": rq.httpMethod, "body": vrClip(rq.body),
+			"go_outcome": vrKinds[o.kind], "go_http_status": o.status, "go_error_code": o.code, "go_response_bytes": o.rlen, "go_alloc": o.alloc, "go_message": o.msg}
+		rec, _ := json.Marshal(map[string]any{"class": cl, "term": vrClip(term), "data": data})
+		records = append(records, string(rec))
+		if classes[cl] == 1 && len(samples) < 10 {
+			samples = append(samples, data)
+		}
+	}
+	os.MkdirAll(out, 0o755)
+	const shard = 400
+	nsh := 0
+	for off := 0; off < len(cases); off += shard {
+		end := min(off+shard, len(cases))
+		var sb strings.Builder
+		nch := 0
+		for k := off; k < end; k += 50 {
+			fmt.Fprintf(&sb, "Definition chunk_%d : list c12r_case := [\n%s].\n", nch, strings.Join(cases[k:min(k+50, end)], ";\n"))
+			nch++
+		}
+		sb.WriteString("Definition cases : list c12r_case := ")
+		for k := 0; k < nch; k++ {
+			if k > 0 {
+				sb.WriteString(" ++ ")
+			}
+			fmt.Fprintf(&sb, "chunk_%d", k)
+		}
+		sb.WriteString(".\n")
+		os.WriteFile(filepath.Join(out, fmt.Sprintf("c12rpc_%d.cases", nsh)), []byte(sb.String()), 0o644)
+		nsh++
+	}
+	os.WriteFile(filepath.Join(out, "c12rpc.records.jsonl"), []byte(strings.Join(records, "\n")+"\n"), 0o644)
+	meta, _ := json.Marshal(map[string]any{"evaluations": len(cases), "shards": nsh, "shard_size": shard, "classes": classes,
+		"distinct_nontrivial": len(classes), "samples": samples, "child_starts": c.starts,
+		"rule": "JSON-RPC bodies over loopback HTTP to the real server of startRpc (node with a real LMDB store and four mined blocks, in a child process): every method valid, with params missing / of every wrong JSON type, every field as hex of every byte length 0..40 and around 32/64 bytes, odd length, non-hex, upper case, escapes, wrong types, missing; uint64 fields at 2^31, 2^53, 2^63, 2^64-1, 2^64, negative, fractional, strings; addresses of every form; envelope fields (jsonrpc, method, id) missing / wrong type / long; empty, one-byte, truncated, non-JSON, batch, deeply nested and 64 KiB..4 MiB bodies; other HTTP methods; transaction-like byte strings for submit_transaction. A class is (generator, shape, outcome, error code)."})
+	os.WriteFile(filepath.Join(out, "c12rpc.meta.json"), meta, 0o644)
+}
